@@ -43,6 +43,11 @@ def dump(rec, n, series):
     return out
 
 
+def lengths(rec):
+    """number of points every entry of the record holds (1 = a scalar mass)"""
+    return [int(np.size(f.mass_or_mass_fraction)) for f in rec.fuels]
+
+
 class P(Prop):
     ID = "C18"
     THEOREMS = ["C18_add_conserves", "C18_add_comm_assoc", "C18_scale", "C18_fractions", "C18_operands_unchanged"]
@@ -77,39 +82,72 @@ class P(Prop):
                 if ents and rng.random() < 0.15:
                     ents.append([list(ents[-1][0]), list(ents[-1][1])])      # the same flow twice (two identical machines)
                 recs.append(ents)
+            # in a series case some records hold plain scalar masses (a constant flow): "scalar" form
+            forms = ["series" if series else "scalar" for _ in recs]
+            if series:
+                for i_, ents in enumerate(recs):
+                    if ents and rng.random() < 0.2:
+                        forms[i_] = "scalar"
+                        for e in ents:
+                            e[1] = [e[1][0]] * n
             if series and rng.random() < 0.3 and recs:   # a step in which every record is zero
                 t0 = rng.randrange(n)
-                for r in recs:
+                for r, fm in zip(recs, forms):
                     for e in r:
-                        e[1][t0] = Fraction(0)
+                        if fm == "series":
+                            e[1][t0] = Fraction(0)
             ops = []
             live = len(recs)
+            fl = list(forms)          # form of every live record: series / scalar / mixed (entries of both forms)
             for _o in range(rng.randint(2, 6)):
                 kind = rng.choice(["add", "add", "add", "scale", "frac", "query", "query"])
+                uniform = [i_ for i_, f_ in enumerate(fl) if f_ == ("series" if series else "scalar")]
+                if kind in ("frac", "query") and not uniform:
+                    kind = "add"
                 if kind == "add":
-                    ops.append(["add", rng.randrange(live), rng.randrange(live)]); live += 1
+                    i_, j_ = rng.randrange(live), rng.randrange(live)
+                    ops.append(["add", i_, j_]); live += 1
+                    ne_i, ne_j = len(self._nent(recs, ops, i_)), len(self._nent(recs, ops, j_))
+                    fl.append(fl[i_] if (fl[i_] == fl[j_] or ne_j == 0) else fl[j_] if ne_i == 0 else "mixed")
                 elif kind == "scale":
                     if series and rng.random() < 0.4:
                         k = [Fraction(rng.randint(0, 24), 8) for _ in range(n)]
                     else:
-                        k = [Fraction(rng.randint(0, 24), 8)] * n
-                    ops.append(["scale", rng.randrange(live), k]); live += 1
+                        k = [Fraction(0) if rng.random() < 0.15 else Fraction(rng.randint(0, 24), 8)] * n     # incl. a factor of exactly 0
+                    i_ = rng.randrange(live)
+                    ops.append(["scale", i_, k]); live += 1
+                    per_step = series and len(set(k)) > 1
+                    fl.append("series" if (per_step and self._nent(recs, ops, i_)) else fl[i_])
                 elif kind == "frac":
-                    ops.append(["frac", rng.randrange(live)]); live += 1
+                    i_ = rng.choice(uniform)
+                    ops.append(["frac", i_]); live += 1
+                    fl.append(fl[i_])
                 else:
-                    ops.append(["query", rng.randrange(live), rng.choice(["total", "fractions", "emissions"])])
-            out.append({"series": series, "n": n, "recs": recs, "ops": ops, "share_objects": rng.random() < 0.4})
+                    ops.append(["query", rng.choice(uniform), rng.choice(["total", "fractions", "emissions"])])
+            out.append({"series": series, "n": n, "recs": recs, "ops": ops, "share_objects": rng.random() < 0.4, "forms": forms, "live_forms": fl})
         return out
+
+    @staticmethod
+    def _nent(recs, ops, i):
+        """the kinds a live record has (initial records, then one per add / scale / frac in order)"""
+        live = [[tuple(k) for k, _ in r] for r in recs]
+        for o in ops:
+            if o[0] == "add":
+                live.append(live[o[1]] + [k for k in live[o[2]] if k not in live[o[1]]])
+            elif o[0] in ("scale", "frac"):
+                live.append(list(live[o[1]]))
+        return live[i] if i < len(live) else []
 
     def run(self, case):
         from feems.fuel import FuelConsumerClassFuelEUMaritime, FuelConsumption
         n, series = case["n"], case["series"]
         env = []
-        for ents in case["recs"]:
+        forms = case.get("forms") or ["series" if series else "scalar"] * len(case["recs"])
+        for ents, form in zip(case["recs"], forms):
             fuels = []
             made = {}      # share_objects: entries with the same kind and masses are ONE Fuel object listed several times
             for k, ms in ents:
-                mass = np.array([float(x) for x in ms]) if series else float(ms[0])
+                mass = np.array([float(x) for x in ms]) if form == "series" else float(ms[0])
                 key = (tuple(k), tuple(ms))
                 if case.get("share_objects") and key in made:
                     fuels.append(made[key])
@@ -143,7 +181,7 @@ class P(Prop):
                         q = "rejected:" + type(ex).__name__
                 queries.append(q)
                 dumps.append([dump(r, n, series) for r in env])
-        return {"dumps": dumps, "queries": queries}
+        return {"dumps": dumps, "queries": queries, "lengths": [lengths(r) for r in env]}
 
     def term(self, case, obs):
         n, series = case["n"], case["series"]
@@ -203,6 +241,12 @@ class P(Prop):
                     if abs(q[t] - tot(prev[o[1]], t if len(q) > 1 else 0)) > 1e-9 * max(1.0, abs(q[t])):
                         return f"total query {q} differs from the sum of the entries"
             prev = d
+        # a series stays a series (every entry holds n points), a scalar record a scalar one
+        for i, (fm, ls) in enumerate(zip(case.get("live_forms") or [], obs.get("lengths") or [])):
+            want = n if fm == "series" else 1 if fm == "scalar" else None
+            if want is not None and any(l != want for l in ls):
+                return (f"live record {i} should hold {'series of ' + str(n) + ' points' if fm == 'series' else 'scalar masses'} "
+                        f"but its entries hold {ls} points")
         return None
 
     def nontrivial(self, case, obs):
@@ -218,6 +262,10 @@ class P(Prop):
             t.append("one-Fuel-object-listed-twice-in-a-record")
         if len({k[2] for r in case["recs"] for k, _ in r}) > 1:
             t.append("mixed-specifications")
+        if case["series"] and "scalar" in (case.get("forms") or []):
+            t.append("scalar-record-among-series-records")
+        if any(o[0] == "scale" and all(x == 0 for x in o[2]) for o in case["ops"]):
+            t.append("scale-factor-exactly-0")
         if any(isinstance(q, str) for q in obs.get("queries", [])):
             t.append("query-rejected(mixed IMO/EU)")
         return sorted(set(t))
